@@ -7,9 +7,9 @@ package sym
 
 import (
 	"bytes"
-	"html"
 	"fmt"
 	"go/types"
+	"html"
 	"reflect"
 	"strconv"
 	"strings"
@@ -24,36 +24,36 @@ import (
 // nativeFirst: functions with a symbolic model that are nevertheless called
 // natively when every argument is concrete (fast path; same result).
 var nativeFirst = map[string]any{
-	"strings.Contains":     strings.Contains,
-	"strings.ContainsAny":  strings.ContainsAny,
-	"strings.ContainsRune": strings.ContainsRune,
-	"strings.Index":        strings.Index,
-	"strings.IndexByte":    strings.IndexByte,
-	"strings.IndexAny":     strings.IndexAny,
-	"strings.IndexRune":    strings.IndexRune,
-	"strings.LastIndex":    strings.LastIndex,
-	"strings.LastIndexAny": strings.LastIndexAny,
-	"strings.Count":        strings.Count,
-	"strings.HasPrefix":    strings.HasPrefix,
-	"strings.HasSuffix":    strings.HasSuffix,
-	"strings.TrimSpace":    strings.TrimSpace,
-	"strings.Trim":         strings.Trim,
-	"strings.TrimLeft":     strings.TrimLeft,
-	"strings.TrimRight":    strings.TrimRight,
-	"strings.TrimPrefix":   strings.TrimPrefix,
-	"strings.TrimSuffix":   strings.TrimSuffix,
-	"strings.ToLower":      strings.ToLower,
-	"strings.ToUpper":      strings.ToUpper,
-	"strings.Split":        strings.Split,
-	"strings.SplitN":       strings.SplitN,
-	"strings.Join":         strings.Join,
-	"strings.Repeat":       strings.Repeat,
-	"strings.ReplaceAll":   strings.ReplaceAll,
-	"strings.Replace":      strings.Replace,
-	"strings.Fields":       strings.Fields,
-	"strings.EqualFold":    strings.EqualFold,
-	"strconv.Itoa":         strconv.Itoa,
-	"html.EscapeString":    html.EscapeString,
+	"strings.Contains":                   strings.Contains,
+	"strings.ContainsAny":                strings.ContainsAny,
+	"strings.ContainsRune":               strings.ContainsRune,
+	"strings.Index":                      strings.Index,
+	"strings.IndexByte":                  strings.IndexByte,
+	"strings.IndexAny":                   strings.IndexAny,
+	"strings.IndexRune":                  strings.IndexRune,
+	"strings.LastIndex":                  strings.LastIndex,
+	"strings.LastIndexAny":               strings.LastIndexAny,
+	"strings.Count":                      strings.Count,
+	"strings.HasPrefix":                  strings.HasPrefix,
+	"strings.HasSuffix":                  strings.HasSuffix,
+	"strings.TrimSpace":                  strings.TrimSpace,
+	"strings.Trim":                       strings.Trim,
+	"strings.TrimLeft":                   strings.TrimLeft,
+	"strings.TrimRight":                  strings.TrimRight,
+	"strings.TrimPrefix":                 strings.TrimPrefix,
+	"strings.TrimSuffix":                 strings.TrimSuffix,
+	"strings.ToLower":                    strings.ToLower,
+	"strings.ToUpper":                    strings.ToUpper,
+	"strings.Split":                      strings.Split,
+	"strings.SplitN":                     strings.SplitN,
+	"strings.Join":                       strings.Join,
+	"strings.Repeat":                     strings.Repeat,
+	"strings.ReplaceAll":                 strings.ReplaceAll,
+	"strings.Replace":                    strings.Replace,
+	"strings.Fields":                     strings.Fields,
+	"strings.EqualFold":                  strings.EqualFold,
+	"strconv.Itoa":                       strconv.Itoa,
+	"html.EscapeString":                  html.EscapeString,
 	"golang.org/x/net/html.EscapeString": xhtml.EscapeString,
 }
 
